@@ -23,7 +23,7 @@ ASSUMPTIONS = [
     "lists are used with the condition/action family of their own type; a regex list has one member (other uses are outside the domain)",
     "reference readers of the three vendors' policy / list syntaxes are in this module (namespaces per list kind)",
 ]
-FLOORS = {"quick": {"generator_runs": 2000, "policy_runs": 500, "refs_checked": 1000, "constructs_rejected": 100, "actions_segmented": 1000, "combined_operation_actions": 100, "wildcard_only_as_path_filter_refs": 50, "shared_policy_inputs_checked": 800, "reused_generator_objects": 1500, "reused_generator_objects_after_a_refused_run": 100, "annotated_runs": 1500},
+FLOORS = {"quick": {"generator_runs": 2000, "policy_runs": 500, "refs_checked": 1000, "constructs_rejected": 100, "actions_segmented": 1000, "combined_operation_actions": 100, "wildcard_only_as_path_filter_refs": 50, "shared_policy_inputs_checked": 800, "reused_generator_objects": 1500, "reused_generator_objects_after_a_refused_run": 100, "annotated_runs": 1500, "cases_with_included_route_maps": 800},
           "thorough": {"generator_runs": 100000, "policy_runs": 25000, "refs_checked": 50000, "constructs_rejected": 5000, "actions_segmented": 50000, "combined_operation_actions": 5000, "wildcard_only_as_path_filter_refs": 2500, "shared_policy_inputs_checked": 40000}}
 VENDORS = ["huawei", "arista", "cumulus"]
 MODELS = {"huawei": ("Huawei CE6870-48S6CQ-EI", "VRP V200R001C00SPC700"), "arista": ("Arista DCS-7368", "EOS 4.29.9.1M"),
@@ -180,7 +180,8 @@ def gen_program(rng, e):
     return pols
 
 
-def build_routemap(program):
+def build_routemap(program, nested=False):
+    """nested: the policies are spread over included sub-maps (RouteMap.include), two levels deep, as larger policy sets are written"""
     from annet.rpl import RouteMap, R
     rm = RouteMap()
 
@@ -238,8 +239,15 @@ def build_routemap(program):
                     getattr(rule, st["result"])()
         handler.__name__ = pol["name"]
         return handler
-    for pol in program:
-        rm(make(pol), name=pol["name"])
+    if not nested:
+        for pol in program:
+            rm(make(pol), name=pol["name"])
+        return rm
+    sub1, sub2 = RouteMap(), RouteMap()
+    for i, pol in enumerate(program):
+        (rm, sub1, sub2)[i % 3 if i else 1](make(pol), name=pol["name"])   # the first policy already sits in an included map
+    sub1.include(sub2)
+    rm.include(sub1)
     return rm
 
 
@@ -282,11 +290,11 @@ def policies_snapshot(policies):
     return [[p.name, [[getattr(st, "name", None), [repr(c) for c in st.match.conditions], [repr(a) for a in st.then.actions]] for st in p.statements]] for p in policies]
 
 
-def make_generators(vendor, program, ents):
+def make_generators(vendor, program, ents, nested=False):
     from annet import rpl_generators as RG
     from vf.harness_gen import FakeStorage
     comms, pls, asp, rds = build_entities(ents)
-    rm = build_routemap(program)
+    rm = build_routemap(program, nested)
     shared = {}
 
     class Mixin:
@@ -295,6 +303,8 @@ def make_generators(vendor, program, ents):
         def get_policies(self, device):
             # the policies are built once per device and handed to every generator (what a provider that caches them does):
             # generators only read them
+            if nested:
+                return rm.apply(device)  # every generator asks the route map itself (what annet.rpl_generators.get_policies does): each time the same policies
             if "policies" not in shared:
                 shared["policies"] = rm.apply(device)
                 shared["snapshot"] = policies_snapshot(shared["policies"])
@@ -532,7 +542,10 @@ def check_case(seed, acc):
     model, soft = MODELS[vendor]
     dev = H.FakeDevice(HardwareView(model, soft), pc=(vendor == "cumulus"))
     w = {"seed": seed, "vendor": vendor, "program": program, "entities": ents}
-    gens = make_generators(vendor, program, ents)
+    nested = seed % 3 == 1
+    if nested:
+        acc.count("cases_with_included_route_maps")
+    gens = make_generators(vendor, program, ents, nested)
     rejected = 0
     nrefs = 0
     # (4) raw streams with recording proxies
@@ -572,7 +585,7 @@ def check_case(seed, acc):
         # nesting as yielded
         yielded = None
         try:
-            g2 = make_generators(vendor, program, ents)[name]
+            g2 = make_generators(vendor, program, ents, nested)[name]
             rec2 = Recorder()
             entered = set()
             orig_block = g2.block
